@@ -425,6 +425,8 @@ class Interp(object):
     if isinstance(op, ast.Mult) and isinstance(a, list) and len(a) == 1 and isinstance(b, SInt):
       # [x] * n : n copies of x (empty when n <= 0)
       sh = shape_of(a[0])
+      if sh is None and a[0] is None:
+        return self.models.RepeatNone(b)       # [None] * n: the element shape comes from where it goes
       if sh is None: self.unsupported("[x] * n with x of unknown shape", node)
       res = self.ctx.fresh(V.Seq(sh), "rep")
       i = z3.Int("rp?%d" % self._qid())
@@ -1551,6 +1553,9 @@ class Interp(object):
       old = self.spec; self.spec = True
       try:
         f2 = Frame(None, self); f2.env = fr.flat_env(); f2.spec_names = True
+        if self.contract is not None:      # the contract's spec macros are available to ghost inits
+          for k, v in self.contract.spec_env(self, f2).items():
+            f2.env.setdefault(k, v)
         return self.ev(ast.parse(init, mode="eval").body, f2)
       finally:
         self.spec = old
